@@ -52,7 +52,7 @@ RULE = ('histories of patch/unpatch/set-priority/GC/client add+remove/port data/
         'every branch of GenericPatchPort / GenericUnPatchPort (same universe, loop refusal, multi-port refusal, veto '
         'on a fresh port, veto on a patched port + GC + use, refused un-patch + GC + use, null port), of '
         'SetPriorityStatic (199/200/201/255, uint8 wrap), of RestorePortSettings (restore vetoed / refused by policy), '
-        'unregister+stop+GC+re-register, RegisterForDmx(UNREGISTER) on a missing universe, the input and output port with the same port id (ids are per device and direction, as on real devices) to one universe under each policy, a universe going idle twice between collections; state compared after '
+        'unregister+stop+GC+re-register, RegisterForDmx(UNREGISTER) on a missing universe, the input and output port with the same port id (ids are per device and direction, as on real devices) to one universe under each policy, a universe going idle twice between collections, DMX frames (UpdateDmxData) interleaved with housekeeping runs (GC + CleanStaleSourceClients) where a sending source client is the only referrer; state compared after '
         'every op; non-trivial = at least one successful patch and one later state-changing op; distinct = distinct '
         'model output trace')
 ASSUMPTIONS = ['PreSetUniverse(old, new) is a function of the port, the number of the new universe (or NULL) and the '
@@ -137,7 +137,8 @@ def rand_op(rng, devs, ports, pool):
     if r < 0.60: return 'G'
     if r < 0.63: return 'R.%d' % rng.randrange(len(devs) + 1)
     if r < 0.655: return 'N.%d' % rng.randrange(len(devs) + 1)
-    if r < 0.67: return rng.choice(['NA', 'RA.%d.%d' % (n, c), 'RU.%d.%d' % (n, c), 'RU.%d.%d' % (n, c)])
+    if r < 0.67: return rng.choice(['NA', 'RA.%d.%d' % (n, c), 'RU.%d.%d' % (n, c), 'RU.%d.%d' % (n, c),
+                                    'F.%d.%d' % (n, c), 'F.%d.%d' % (n, c), 'H', 'H'])
     if r < 0.72: return 'S.%d.%d' % (p, rng.choice(PRIOS + [rng.randrange(256)]))
     if r < 0.75: return 'I.%d' % p
     if r < 0.80: return 'KA.%d.%d' % (n, c)
@@ -150,7 +151,7 @@ def rand_op(rng, devs, ports, pool):
 
 def directed(rng, devs, ports, pool):
     """prefixes aimed at the branches of GenericPatchPort"""
-    kind = rng.randrange(17)
+    kind = rng.randrange(20)
     np_ = len(ports)
     ops = []
     if kind == 0:
@@ -235,6 +236,27 @@ def directed(rng, devs, ports, pool):
         a, b = rng.sample(pool, 2)
         ops = ['P.%d.%d' % (k, a), 'P.%d.%d' % (p, a), 'P.%d.%d' % (p, b), 'P.%d.%d' % (p, a), 'G',
                'U.%d' % k, 'P.%d.%d' % (p, a), 'G']
+    elif kind in (17, 18, 19):
+        # source-client staleness: the only referrer of a universe is a client that keeps sending;
+        # frames interleaved with housekeeping runs (and GC): it must survive while it sends at least
+        # once per two housekeeping runs, and be reaped (universe collected) after two silent runs
+        a = rng.choice(pool)
+        cl = rng.randrange(3)
+        start = rng.choice([['RA.%d.%d' % (a, cl), 'F.%d.%d' % (a, cl), 'RU.%d.%d' % (a, cl)],
+                            ['KA.%d.2' % a, 'F.%d.%d' % (a, cl), 'KR.%d.2' % a]])
+        p = rng.randrange(np_)
+        if a not in ports[p][3] and ports[p][4] == '-' and rng.random() < 0.5:
+            start = ['P.%d.%d' % (p, a), 'F.%d.%d' % (a, cl), 'U.%d' % p]
+        if kind == 17:
+            body = ['H', 'F.%d.%d' % (a, cl), 'H', 'H', 'F.%d.%d' % (a, cl), 'H', 'G', 'H', 'H', 'F.%d.%d' % (a, cl), 'G']
+        elif kind == 18:
+            body = []
+            for _ in range(rng.randrange(3, 8)):
+                body.append(rng.choice(['H', 'H', 'F.%d.%d' % (a, cl), 'F.%d.%d' % (a, (cl + 1) % 3), 'G',
+                                        'SA.%d.%d' % (a, cl), 'SR.%d.%d' % (a, cl)]))
+        else:
+            body = ['F.%d.%d' % (a, cl), 'H', 'F.%d.%d' % (a, (cl + 1) % 3), 'H', 'F.%d.%d' % (a, cl), 'H', 'H', 'H']
+        ops = start + body
     elif kind in (15, 16):
         # the input and the output port with the SAME port id of one device to one universe, under
         # each looping/multi-port policy (and a different-id pair next to it)
